@@ -362,7 +362,11 @@ Section Whole.
          exists gn, (exists f, In f fs /\ tk f = Some t /\ gk f = Some gn) /\
                     find_id t (s_rows st') = Some (set_bin (set_id t (t_row g t gn x)))) /\
       (forall gn x, expected_extent g (g_gkey g) gn fs = Some x ->
-         find_id gn (s_rows st') = Some (set_bin (set_id gn (g_row g gn x)))).
+         find_id gn (s_rows st') = Some (set_bin (set_id gn (g_row g gn x)))) /\
+      (* the relations table: per line exactly (transcript, line, 1), (gene, line, 2), (gene, transcript, 1) - nothing else *)
+      (forall x, In x (s_rels st') <->
+         exists p t gn, In p (assign fs []) /\ tk (fst p) = Some t /\ gk (fst p) = Some gn /\
+                        (x = mkRel t (snd p) 1 \/ x = mkRel gn (snd p) 2 \/ x = mkRel gn t 1)).
   Proof.
     intros Hnil Himp. rewrite (import_gtf_nonempty _ _ _ _ _ _ _ Hnil) in Himp.
     rewrite populate_empty in Himp. destruct Hflags as [NG NT].
@@ -389,7 +393,7 @@ Section Whole.
     { pose proof (l_gtf_inference call g force st1 ds Hk1 Hk2 Hne) as L.
       rewrite NG, NT in L. specialize (L eq_refl Hder Hclean Hnd Hnew).
       unfold update_relations_gtf in Himp, L. rewrite NG, NT in Himp, L. cbn [andb] in Himp, L. rewrite Himp in L. inversion L. reflexivity. }
-    subst st'. cbn [s_rows]. split; [reflexivity|]. split; [apply l_gtf_ids_unique; assumption|]. split.
+    subst st'. cbn [s_rows s_rels]. split; [reflexivity|]. split; [apply l_gtf_ids_unique; assumption|]. split; [|split].
     - intros t x Hx.
       assert (Hf : exists f, In f fs /\ is_sub g f = true /\ tk f = Some t).
       { unfold expected_extent in Hx. destruct (subs_of g (g_tkey g) t fs) as [|k kids] eqn:S; [discriminate|].
@@ -415,5 +419,6 @@ Section Whole.
       destruct (l_gene_inferred g st1 ds t gn NG Hder Hrows1 Hnd Hnew Hin) as [x' [Ex Hfind]].
       unfold st1 in Ex. rewrite (l_extent_is_expected g fs Hboth Hkeys Htg (g_gkey g) gn) in Ex by (right; split; [reflexivity|exists f; auto]).
       rewrite Hx in Ex. inversion Ex; subst x'. exact Hfind.
+    - intros x. unfold st1. apply (rel_in g fs Hboth Hkeys).
   Qed.
 End Whole.
